@@ -15,7 +15,7 @@ streams only.  `column_format.get('<key>')` and `column_format['<key>']` become 
 width / till is an `int` or `None`, of `type` a `str` or `None`; `[...]` of size / offset / till an `int` (the scope of the
 model: keys present, natural numbers).  Statement / expression subset: the one of harness/translate_py_tlvgen.py plus
 `None`, `is None` / `is not None`, `==` of an optional str with a str, `+` (of two `int | None`: TypeError on None; of two
-str), slices `s[a:b]` / `s[:b]` / `s[a:]` with `int | None` bounds, `s.zfill(n)`, `s.ljust(n)`, `str()` of a record value
+str), slices `s[a:b]` / `s[:b]` / `s[a:]` with `int | None` bounds, `s.zfill(n)`, `s.ljust(n)`, `s.rjust(n)`, `str()` of a record value
 (`Fwf.pyStr`).  Anything else raises TranslateError (broken tie), never stale text.
 """
 import ast
@@ -145,13 +145,13 @@ class FragTranslator(w.WriterTranslator):
                 hi = self.as_opt_int(e, rest.pop(0)) if sl.upper is not None else "none"
                 return k("(sliceO %s %s %s)" % (vs[0][0], lo, hi), "str")
             return self.many(parts, env, after)
-        if isinstance(e, ast.Call) and isinstance(e.func, ast.Attribute) and e.func.attr in ("zfill", "ljust") and len(e.args) == 1 and not e.keywords:
+        if isinstance(e, ast.Call) and isinstance(e.func, ast.Attribute) and e.func.attr in ("zfill", "ljust", "rjust") and len(e.args) == 1 and not e.keywords:
             def after(vs):
                 if [t for _, t in vs] != ["str", "int"]:
                     raise self.err(e, "%s of (%s)" % (e.func.attr, ", ".join(t for _, t in vs)))
                 if e.func.attr == "zfill":
                     return k("(N0.Fwf.zfill (Int.toNat %s) %s)" % (vs[1][0], vs[0][0]), "str")
-                return k("(ljust (Int.toNat %s) ' ' %s)" % (vs[1][0], vs[0][0]), "str")
+                return k("(%s (Int.toNat %s) ' ' %s)" % (e.func.attr, vs[1][0], vs[0][0]), "str")
             return self.many([e.func.value, e.args[0]], env, after)
         if isinstance(e, ast.Call) and isinstance(e.func, ast.Name) and e.func.id == "str" and len(e.args) == 1 and not e.keywords:
             def after(t, ty):
